@@ -23,7 +23,7 @@ from .oracles import Violation
 from .fam_pipeline import Outcome
 from .fns import TOKEN_BASE, tokens, freeze
 
-ASYNC_OPS = ['timed_window', 'buffer', 'delay', 'rate_limit', 'latest', 'partition_t']
+ASYNC_OPS = ['timed_window', 'timed_window_unique', 'buffer', 'delay', 'rate_limit', 'latest', 'partition_t']
 SETTLE = 6.0
 
 
@@ -144,6 +144,8 @@ def run(sc):
                 cur = cur.map(lambda x, _t=n['tag']: (_t, x))
             elif op == 'timed_window':
                 cur = cur.timed_window(n['interval'])
+            elif op == 'timed_window_unique':
+                cur = cur.timed_window_unique(n['interval'])
             elif op == 'buffer':
                 cur = cur.buffer(n['n'])
             elif op == 'delay':
@@ -256,6 +258,8 @@ def _reach(edges, src, chain, side):
         cnt = (1 if (src, j) in edges else 0) + (out_prev if (j - 1, j) in edges else 0)
         if chain[j]['op'] == 'latest':
             cnt = min(cnt, 1)
+        # (timed_window_unique: copies of one element that arrive over different paths carry different tags,
+        # so they are different values and all survive)
         outs.append(cnt)
         out_prev = cnt
     res = {'end': outs[m - 1]}
